@@ -44,6 +44,34 @@ func c14isOptionWord(v ssa.Value) bool {
 	return false
 }
 
+// c14isOptionKey: the constant is the key of an option the generator interprets, without its "=".
+func c14isOptionKey(v ssa.Value) bool {
+	s, ok := constString(v)
+	if !ok {
+		return false
+	}
+	for _, w := range c14optionWords {
+		if s+"=" == w {
+			return true
+		}
+	}
+	return false
+}
+
+// c14isSplitAtEq: the value is the result of cutting a text at "=" (strings.Cut, Split, SplitN, SplitAfter..).
+func c14isSplitAtEq(v ssa.Value) bool {
+	call, ok := v.(*ssa.Call)
+	if !ok || len(call.Call.Args) < 2 {
+		return false
+	}
+	switch calleeName(&call.Call) {
+	case "strings.Cut", "strings.Split", "strings.SplitN", "strings.SplitAfter", "strings.SplitAfterN":
+		sep, isK := constString(call.Call.Args[1])
+		return isK && sep == "="
+	}
+	return false
+}
+
 // runC14E1: the option words of a routing tag reach the generator verbatim. The option text is identified by its
 // role: the values the generator compares with proto=.. or tests for the prefixes weight= / redirect=; their backward
 // slice (result-index and field sensitive, so that the route part of the same tag may be expanded) must not contain an
@@ -66,6 +94,11 @@ func runC14E1(st *c14state) {
 		}
 		return c14fromTable(v, c14isOptionWord)
 	}
+	// other spelling: the word is cut at its "=" first (strings.Cut / SplitN / Split) and the KEY is compared with
+	// proto / weight / redirect
+	isKeyOf := func(k, other ssa.Value) bool {
+		return c14isOptionKey(k) && c14derives(other, c14isSplitAtEq)
+	}
 	eachInstrOf(st.ownerFns(), func(_ *ssa.Function, i ssa.Instruction) {
 		switch x := i.(type) {
 		case *ssa.BinOp:
@@ -73,9 +106,9 @@ func runC14E1(st *c14state) {
 				return
 			}
 			switch {
-			case isWord(x.Y):
+			case isWord(x.Y), isKeyOf(x.Y, x.X):
 				sites = append(sites, site{x, x.X})
-			case isWord(x.X):
+			case isWord(x.X), isKeyOf(x.X, x.Y):
 				sites = append(sites, site{x, x.Y})
 			}
 		case *ssa.Call:
